@@ -38,7 +38,7 @@ import gen_score as G
 
 PROPERTY = "C04"
 DRIVER = "drv_c04"
-PROPS = ["PartituraModel.Props.C04"]
+PROPS = ["PartituraModel.Props.C04", "PartituraModel.Props.C04Export", "PartituraModel.Props.C04Sigs"]
 TRUSTED = [
     "mido: message (de)serialisation, variable-length delta times, end_of_track appended on save; the file is "
     "written to a buffer and read back with mido.MidiFile before anything is compared",
@@ -284,12 +284,21 @@ def gen_part(rng, pid, skeleton, occ, empty=False):
         q += blen_q
     end_t = t
     pd["ks"].append([0, rng.randint(-7, 7), rng.choice(["major", "minor", None])])
-    if len(layout) > 1 and rng.random() < 0.3:
-        pd["ks"].append([layout[rng.randrange(1, len(layout))][0], rng.randint(-7, 7), rng.choice(["major", "minor"])])
+    # key signature changes in the middle of the piece: at barlines and (less often) inside a bar
+    for _ in range(rng.choice([0, 0, 0, 1, 1, 2, 3])):
+        if len(layout) > 1 and rng.random() < 0.7:
+            kt = layout[rng.randrange(1, len(layout))][0]
+        else:
+            kt = rng.randrange(0, end_t)
+        if all(x[0] != kt for x in pd["ks"]):
+            pd["ks"].append([kt, rng.randint(-7, 7), rng.choice(["major", "minor"])])
+    pd["ks"].sort(key=lambda x: x[0])
     if rng.random() < 0.5:
         pd["extras"].append(["Tempo", 0, None, {"bpm": rng.choice([60, 72.5, 90, 120, 133]), "unit": rng.choice(["q", "h", "q.", "e"])}])
-    if rng.random() < 0.3:
-        pd["extras"].append(["Tempo", rng.randrange(0, end_t), None, {"bpm": rng.choice([50, 66, 100, 144.4]), "unit": "q"}])
+    # several tempo marks: at barlines (where the other parts of a shared skeleton have theirs too) and anywhere
+    for _ in range(rng.choice([0, 0, 0, 1, 1, 2, 3, 4])):
+        tt = layout[rng.randrange(len(layout))][0] if rng.random() < 0.5 else rng.randrange(0, end_t)
+        pd["extras"].append(["Tempo", tt, None, {"bpm": rng.choice([50, 66, 100, 144.4, 81, 200]), "unit": rng.choice(["q", "q", "h", "e"])}])
     pd["clefs"].append([0, 1, "G", 2, 0])
 
     def qpos(tt):
@@ -363,8 +372,14 @@ def gen_part(rng, pid, skeleton, occ, empty=False):
                 occ.add(p, q0, q1)
                 chosen.append(p)
             # grace note before the main notes, sometimes with the pitch of a note starting or ending here
-            if rng.random() < 0.14:
-                pool = [p for p in (occ.starting(q0) + occ.touching(q0)) if occ.free(p, q0, q0)] if rng.random() < 0.6 else []
+            for _g in range(rng.choice([1, 1, 1, 2]) if rng.random() < 0.16 else 0):
+                r = rng.random()
+                if r < 0.35 and chosen:
+                    pool = [p for p in chosen if occ.free(p, q0, q0)]      # the pitch of its own main note
+                elif r < 0.7:
+                    pool = [p for p in (occ.starting(q0) + occ.touching(q0)) if occ.free(p, q0, q0)]
+                else:
+                    pool = []
                 gp = rng.choice(pool) if pool else next((x for x in [rng.randint(36, 96) for _ in range(8)] if occ.free(x, q0, q0)), None)
                 if gp is not None:
                     occ.add(gp, q0, q0)
@@ -418,17 +433,46 @@ def gen_score1(rng):
     empty_at = rng.randrange(nparts) if nparts > 1 and rng.random() < 0.12 else None
     for i in range(nparts):
         parts.append(gen_part(rng, "P%d" % i, sk if shared else gen_skeleton(rng), occ, empty=(i == empty_at)))
-    # structure: parts optionally wrapped in groups
+    # structure: parts optionally wrapped in groups; a group may contain further groups ("n": nested items)
     struct, i = [], 0
     while i < nparts:
-        if rng.random() < 0.35:
+        r = rng.random()
+        if r < 0.3:
             n = rng.randint(1, nparts - i)
             struct.append(["g", list(range(i, i + n))])
+            i += n
+        elif r < 0.5:
+            n = rng.randint(1, nparts - i)
+            inner, j = [], i
+            while j < i + n:
+                if rng.random() < 0.6:
+                    m = rng.randint(1, i + n - j)
+                    inner.append(["g", list(range(j, j + m))] if rng.random() < 0.7 else ["n", [["g", list(range(j, j + m))]]])
+                    j += m
+                else:
+                    inner.append(["p", j])
+                    j += 1
+            struct.append(["n", inner])
             i += n
         else:
             struct.append(["p", i])
             i += 1
     return {"parts": parts, "struct": struct}
+
+
+def struct_members(item):
+    """indices (into sd["parts"]) of the parts below a structure item, depth first"""
+    if item[0] == "p":
+        return [item[1]]
+    if item[0] == "g":
+        return list(item[1])
+    return [i for sub in item[1] for i in struct_members(sub)]
+
+
+def top_of(sd, idx):
+    """index of the top-level structure item holding part `idx` (the exporter's part group)"""
+    struct = sd.get("struct") or [["p", j] for j in range(len(sd["parts"]))]
+    return next(i for i, it in enumerate(struct) if idx in struct_members(it))
 
 
 def cases(rng, tier):
@@ -475,16 +519,19 @@ def build(sd):
     import partitura.score as S
 
     parts = [G.build_part(pd) for pd in sd["parts"]]
-    partlist = []
-    for item in sd.get("struct") or [["p", i] for i in range(len(parts))]:
+    cnt = [0]
+
+    def mk(item):
         if item[0] == "p":
-            partlist.append(parts[item[1]])
-        else:
-            pg = S.PartGroup(group_name="G%d" % len(partlist))
-            pg.children = [parts[i] for i in item[1]]
-            for c in pg.children:
-                c.parent = pg
-            partlist.append(pg)
+            return parts[item[1]]
+        cnt[0] += 1
+        pg = S.PartGroup(group_name="G%d" % cnt[0])
+        pg.children = [parts[i] for i in item[1]] if item[0] == "g" else [mk(sub) for sub in item[1]]
+        for c in pg.children:
+            c.parent = pg
+        return pg
+
+    partlist = [mk(item) for item in sd.get("struct") or [["p", i] for i in range(len(parts))]]
     return S.Score(partlist, id="score"), parts
 
 
@@ -503,6 +550,27 @@ def part_tokens(part, gidx):
             W.lst(lambda ks: "%d %s" % (ks.start.t, W.s(ks.name)), part.iter_all(S.KeySignature)),
             W.lst(lambda m: "%d %d" % (m.start.t, m.end.t), part.iter_all(S.Measure)),
             W.lst(lambda n: "%d %d %d %s" % (n.start.t, n.duration_tied, n.midi_pitch, W.opt(W.i, n.voice)), part.notes_tied)]
+    return " ".join(toks)
+
+
+def src_tokens(part, gidx):
+    """the same part as its note objects with tie links and voices (`exps`: the model merges the tie chains)"""
+    import partitura.score as S
+
+    times, durs = list(part._quarter_times), list(part._quarter_durations)
+    m1 = next(part.first_point.iter_starting(S.Measure), None)
+    notes = list(part.iter_all(S.Note, include_subclasses=True))
+    idx = {id(n): i for i, n in enumerate(notes)}
+    toks = [W.i(gidx), W.i(durs[0]), W.lst(lambda e: "%d %d" % (e[0], e[1]), list(zip(times[1:], durs[1:]))),
+            W.i(part.first_point.t), W.i(part.last_point.t),
+            "-" if (m1 is None or m1.start is None or m1.end is None) else "%d %d" % (m1.start.t, m1.end.t),
+            W.lst(lambda ts: "%d %d %d" % (ts.start.t, ts.beats, ts.beat_type), part.iter_all(S.TimeSignature)),
+            W.lst(lambda tp: "%d %d" % (tp.start.t, tp.microseconds_per_quarter), part.iter_all(S.Tempo)),
+            W.lst(lambda ks: "%d %s" % (ks.start.t, W.s(ks.name)), part.iter_all(S.KeySignature)),
+            W.lst(lambda m: "%d %d" % (m.start.t, m.end.t), part.iter_all(S.Measure)),
+            W.lst(lambda n: "%d %d %d %s %s %s" % (
+                n.start.t, n.duration, n.midi_pitch, W.b(n.tie_prev is not None),
+                W.opt(W.i, None if n.tie_next is None else idx[id(n.tie_next)]), W.opt(W.i, n.voice)), notes)]
     return " ".join(toks)
 
 
@@ -730,10 +798,10 @@ def evaluate(d):
         # the importer's part construction (measures, ties, tuplets: C11) may reject arbitrary material; the
         # pairing and grouping are compared whenever it returns, and its refusal of a file without notes
         if not e3:
-            ev.requests.append("imp %d %s" % (d["mode"], ttoks))
+            ev.requests.append("imp %d %d %s" % (d["mode"], mf.ticks_per_beat, ttoks))
             ev.impl.append(import_text(sc2))
         elif n_notes == 0:
-            ev.requests.append("imp %d %s" % (d["mode"], ttoks))
+            ev.requests.append("imp %d %d %s" % (d["mode"], mf.ticks_per_beat, ttoks))
             ev.impl.append("err")
         if wellformed:
             want = Counter((a, b, c, p, ch, v) for (a, b, c, p, ch, v) in wf_notes)
@@ -825,6 +893,7 @@ def eval_score(d):
         gidx.append([i for i, t in enumerate(tops) if t is top][0])
     order = [[i for i, q in enumerate(parts) if q is p][0] for p in score.parts]  # score.parts -> index into sd["parts"]
     ptoks = " ".join(part_tokens(p, g) for p, g in zip(score.parts, gidx))
+    stoks = " ".join(src_tokens(p, g) for p, g in zip(score.parts, gidx))
     n_sound = sum(len(sounding_desc(pd)) for pd in sd["parts"])
     for cfg in d["configs"]:
         mode, anac, minppq, vel = cfg
@@ -833,18 +902,19 @@ def eval_score(d):
         _, e = call(save_score_midi, score, buf, part_voice_assign_mode=mode, velocity=vel, anacrusis_behavior=anac,
                     minimum_ppq=minppq)
         ev.requests.append("exp %d %s %d %d %d %s" % (mode, anac, minppq, vel, len(score.parts), ptoks))
+        ev.requests.append("exps %d %s %d %d %d %s" % (mode, anac, minppq, vel, len(score.parts), stoks))
         if e:
-            ev.impl.append("err")
+            ev.impl += ["err", "err"]
             if n_sound > 0:
                 ev.oracle.append("export raised: [%s] save_score_midi raised %s: %s" % (tag, type(e).__name__, str(e)[:120]))
             continue
         buf.seek(0)
         mf = mido.MidiFile(file=buf)
         tracks = file_tracks(mf)
-        ev.impl.append("%d|%s|%s" % (
+        ev.impl += ["%d|%s|%s" % (
             mf.ticks_per_beat,
             W.f_list(lambda tr: W.f_list(lambda x: "%d:%s" % (x[0], msg_text(x[2])), tr), tracks),
-            W.f_list(lambda tr: W.f_list(lambda x: "%d:%s" % (x[1], msg_text(x[2])), tr), tracks)))
+            W.f_list(lambda tr: W.f_list(lambda x: "%d:%s" % (x[1], msg_text(x[2])), tr), tracks))] * 2
         ttoks = W.lst(lambda tr: W.lst(lambda x: "%d %s" % (x[1], msg_token(x[2])), tr), tracks)
         # ---- performance reader: raw ticks
         perf, e2 = call(load_performance_midi, mf)
@@ -861,6 +931,10 @@ def eval_score(d):
                 lambda n: W.f_tuple(*[W.f_int(n[f]) for f in ("note_on_tick", "note_off_tick", "midi_pitch", "channel", "velocity")]),
                 sorted((n for n in pnotes if n["track"] == i),
                        key=lambda n: (n["note_on_tick"], n["midi_pitch"], n["note_off_tick"], n["channel"], n["velocity"]))), range(len(tracks))))
+        # ---- the vocabulary of the theorems against the real file: what each track must hold
+        if pnotes is not None:
+            ev.requests.append("spec %d %s %d %d %d %s" % (mode, anac, minppq, vel, len(score.parts), ptoks))
+            ev.impl.append(spec_text(sd, order, score, anac, tracks, pnotes))
         # ---- score reader, same mode
         buf.seek(0)
         zero_num = any(m.type == "time_signature" and m.numerator == 0 for tr in tracks for _, _, m in tr)
@@ -878,16 +952,54 @@ def eval_score(d):
             # it (C11's subject).  Outside the property's domain: neither compared nor judged.
             ev.oracle += oracle(sd, order, cfg, mf, tracks, pnotes, None, tag)
             continue
-        ev.requests.append("imp %d %s" % (mode, ttoks))
+        ev.requests.append("imp %d %d %s" % (mode, mf.ticks_per_beat, ttoks))
         if e3:
             ev.impl.append("err")
             ev.oracle.append("import raised: [%s] load_score_midi raised %s: %s" % (tag, type(e3).__name__, str(e3)[:120]))
         else:
             ev.impl.append(import_text(sc2))
+            # the imported notes in musical time (`importedRows` of score_roundtrip)
+            org = origin_of({"parts": [sd["parts"][i] for i in order]}, anac)
+            ev.requests.append("rows %s %d %d %s" % (W.q(org), mode, mf.ticks_per_beat, ttoks))
+            ev.impl.append(rows_text((Fraction(n.start.t, mf.ticks_per_beat) + org, Fraction(n.duration_tied, mf.ticks_per_beat),
+                                      int(n.midi_pitch)) for p2 in sc2.parts for n in p2.notes_tied))
         ev.oracle += oracle(sd, order, cfg, mf, tracks, pnotes, sc2, tag)
     ev.key = None if n_sound == 0 else "score:%s" % hash_desc(d)
     ev.info = {"parts": len(sd["parts"]), "notes": n_sound}
     return ev
+
+
+def rows_text(rows):
+    return W.f_list(lambda r: W.f_tuple(W.f_rat(r[0]), W.f_rat(r[1]), W.f_int(r[2])), sorted(rows))
+
+
+def snap(x):
+    """the rational a binary64 quarter time stands for (denominators of quarter times divide the lcm of the divisions)"""
+    return Fraction(float(x)).limit_denominator(1000000)
+
+
+def spec_text(sd, order, score, anac, tracks, pnotes):
+    """what the real file holds, in the vocabulary of Model/ScoreMidiSpec.lean: per track the notes read by the real
+    performance reader, the key / time signature and tempo events written by the real exporter; the score's sounding
+    notes in musical time from the real quarter maps"""
+    org = origin_of({"parts": [sd["parts"][i] for i in order]}, anac)
+    trs = range(len(tracks))
+
+    def evs(tr, typ):
+        return W.f_list(lambda x: "%d:%s" % x, sorted((t, msg_text(m)) for (t, _, m) in tracks[tr] if m.type == typ))
+
+    notes = W.f_list(lambda i: W.f_list(
+        lambda n: W.f_tuple(*[W.f_int(n[f]) for f in ("note_on_tick", "note_off_tick", "midi_pitch", "channel", "velocity")]),
+        sorted((n for n in pnotes if n["track"] == i),
+               key=lambda n: (n["note_on_tick"], n["midi_pitch"], n["note_off_tick"], n["channel"], n["velocity"]))), trs)
+    rows = []
+    for p in score.parts:
+        for n in p.notes_tied:
+            q0, q1 = snap(p.quarter_map(n.start.t)), snap(p.quarter_map(n.start.t + n.duration_tied))
+            rows.append((q0, q1 - q0, int(n.midi_pitch)))
+    return "|".join([W.f_rat(org), notes, W.f_list(lambda tr: evs(tr, "key_signature"), trs),
+                     "-" if anac == "time_sig_change" else W.f_list(lambda tr: evs(tr, "time_signature"), trs),
+                     W.f_list(lambda tr: evs(tr, "set_tempo"), trs), rows_text(rows)])
 
 
 def hash_desc(d):
@@ -914,8 +1026,11 @@ def import_text(sc):
         notes = sorted((n.start.t, int(n.midi_pitch), n.duration_tied, int(n.voice or 0)) for n in p.notes_tied)
         tss = [(t.start.t, t.beats, t.beat_type) for t in p.iter_all(S.TimeSignature)]
         kss = [(k.start.t, k.name) for k in p.iter_all(S.KeySignature)]
+        # create_part: one quarter duration for the whole part, set at time 0 (0 stands for anything else)
+        qd = list(zip([int(x) for x in p._quarter_times], [int(x) for x in p._quarter_durations]))
+        divs = qd[0][1] if (len(qd) == 1 and qd[0][0] == 0) else 0
         rows.append((pid, W.f_tuple(
-            W.f_int(pid), W.f_opt(W.f_int, gi(p)),
+            W.f_int(pid), W.f_opt(W.f_int, gi(p)), W.f_int(divs),
             W.f_list(lambda n: W.f_tuple(*[W.f_int(x) for x in n]), notes),
             W.f_list(lambda t: W.f_tuple(*[W.f_int(x) for x in t]), tss),
             W.f_list(lambda k: W.f_tuple(W.f_int(k[0]), k[1]), kss))))
@@ -1049,8 +1164,7 @@ def oracle(sd, order, cfg, mf, tracks, pnotes, sc2, tag):
         cells = sorted(cell, key=lambda c: (c[0], -99 if c[1] is None else c[1]))
         gof = {}
         for pi in range(len(pds)):
-            gof[pi] = next(i for i, it in enumerate(sd.get("struct") or [["p", j] for j in range(len(pds))])
-                           if (it[0] == "p" and it[1] == order[pi]) or (it[0] == "g" and order[pi] in it[1]))
+            gof[pi] = top_of(sd, order[pi])
         for a in cells:
             for b in cells:
                 want_tr = {0: a[0] == b[0], 1: gof[a[0]] == gof[b[0]], 2: True, 3: a[0] == b[0], 4: True, 5: a == b}[mode]
@@ -1092,10 +1206,7 @@ def oracle(sd, order, cfg, mf, tracks, pnotes, sc2, tag):
                                    % (tag, (a[3], a[4]), (b[3], b[4]), cell2[ka], cell2[kb]))
                         break
                     if mode == 1:
-                        gof_a = next(i for i, it in enumerate(sd.get("struct") or [["p", j] for j in range(len(pds))])
-                                     if (it[0] == "p" and it[1] == order[a[3]]) or (it[0] == "g" and order[a[3]] in it[1]))
-                        gof_b = next(i for i, it in enumerate(sd.get("struct") or [["p", j] for j in range(len(pds))])
-                                     if (it[0] == "p" and it[1] == order[b[3]]) or (it[0] == "g" and order[b[3]] in it[1]))
+                        gof_a, gof_b = top_of(sd, order[a[3]]), top_of(sd, order[b[3]])
                         if (group2[ka][0] == group2[kb][0]) != (gof_a == gof_b):
                             out.append("grouping(import): [%s] mode 1 part groups: parts %d and %d come back in groups %r and %r"
                                        % (tag, a[3], b[3], group2[ka], group2[kb]))
@@ -1165,7 +1276,7 @@ def shrink(d):
             s2["struct"] = [["p", j] for j in range(len(s2["parts"]))]
             yield {"k": "score", "score": s2, "configs": d["configs"]}
     # flatten the structure
-    if any(it[0] == "g" for it in sd.get("struct") or []):
+    if any(it[0] != "p" for it in sd.get("struct") or []):
         s2 = copy.deepcopy(sd)
         s2["struct"] = [["p", j] for j in range(len(s2["parts"]))]
         yield {"k": "score", "score": s2, "configs": d["configs"]}
@@ -1201,7 +1312,14 @@ def distribution(descs, results):
         "divisions": dict(sorted(divs.items())),
         "with_division_change": sum(1 for d in sc if any(pd.get("qd") for pd in d["score"]["parts"])),
         "with_pickup": sum(1 for d in sc if any(pickup_of(pd) > 0 for pd in d["score"]["parts"])),
-        "with_groups": sum(1 for d in sc if any(it[0] == "g" for it in d["score"].get("struct") or [])),
+        "with_groups": sum(1 for d in sc if any(it[0] != "p" for it in d["score"].get("struct") or [])),
+        "with_nested_groups": sum(1 for d in sc if any(it[0] == "n" for it in d["score"].get("struct") or [])),
+        "with_several_tempo_marks": sum(1 for d in sc if sum(1 for pd in d["score"]["parts"] for x in pd.get("extras", []) if x[0] == "Tempo") > 2),
+        "with_key_change": sum(1 for d in sc if any(len(pd.get("ks", [])) > 1 for pd in d["score"]["parts"])),
+        "with_time_sig_change": sum(1 for d in sc if any(len(pd.get("ts", [])) > 1 for pd in d["score"]["parts"])),
+        "with_grace_on_main_pitch": sum(1 for d in sc if any(
+            n["kind"] == "grace" and any(m["kind"] == "note" and m["t"] == n["t"] and m.get("voice") == n.get("voice") and midi_of(m) == midi_of(n)
+                                         for m in pd["notes"]) for pd in d["score"]["parts"] for n in pd["notes"])),
         "with_grace": sum(1 for d in sc if any(n["kind"] == "grace" for pd in d["score"]["parts"] for n in pd["notes"])),
         "raw_files_perf_reader_raised": sum(1 for r in results if isinstance(r, dict) and (r.get("info") or {}).get("raw_perf_raised")),
         "raw_files_importer_raised": sum(1 for r in results if isinstance(r, dict) and (r.get("info") or {}).get("raw_import_raised")),
